@@ -146,8 +146,11 @@ func closureParent(name string) string {
 }
 
 // rebindClosures maps contract names (pkg::rel) to functions, correcting renumbered closures.
-func (P *Program) rebindClosures(byRel map[string]*ssa.Function, shapes map[string]fnShape) map[string]*ssa.Function {
+func (P *Program) rebindClosures(byRel map[string]*ssa.Function, shapes map[string]fnShape, renamed map[string]*ssa.Function) map[string]*ssa.Function {
 	out := map[string]*ssa.Function{}
+	for k, v := range renamed {
+		out[k] = v
+	}
 	if shapes == nil {
 		return out
 	}
@@ -450,6 +453,21 @@ func (P *Program) fieldRenames(shapes map[string]fnShape) map[string]string {
 			continue
 		}
 		for i := range old {
+			if old[i][0] != c.fields[i][0] {
+				stillThere := false
+				for _, f := range c.fields {
+					if f[0] == old[i][0] {
+						stillThere = true
+					}
+				}
+				if !stillThere {
+					sk := strings.TrimPrefix(k, "struct::")
+					if structFieldRen[sk] == nil {
+						structFieldRen[sk] = map[string]string{}
+					}
+					structFieldRen[sk][old[i][0]] = c.fields[i][0]
+				}
+			}
 			if old[i][0] != c.fields[i][0] && !current[old[i][0]] {
 				if prev, dup := ren[old[i][0]]; !dup || prev == c.fields[i][0] {
 					ren[old[i][0]] = c.fields[i][0]
@@ -523,25 +541,27 @@ func (P *Program) renamedFunctions(byRel map[string]*ssa.Function, shapes map[st
 	if shapes == nil {
 		return out
 	}
-	for _, c := range P.Spec.Contracts {
-		if c.Kind != "func" {
+	var keys []string
+	for k := range shapes {
+		if !strings.HasPrefix(k, "struct::") {
+			keys = append(keys, k)
+		}
+	}
+	sort.Strings(keys)
+	taken := map[*ssa.Function]bool{}
+	for _, key := range keys {
+		sep := strings.Index(key, "::")
+		pkg, rel := key[:sep], key[sep+2:]
+		if byRel[key] != nil || closureParent(rel) != "" {
 			continue
 		}
-		key := c.Pkg + "::" + c.Name
-		if byRel[key] != nil || closureParent(c.Name) != "" {
-			continue
-		}
-		old, ok := shapes[key]
-		if !ok {
-			continue
-		}
+		old := shapes[key]
 		var cands []*ssa.Function
 		for _, fn := range P.ModFuncs {
-			if fn.Parent() != nil || fnPkg(fn).Path() != c.Pkg {
+			if fn.Parent() != nil || fnPkg(fn).Path() != pkg || taken[fn] {
 				continue
 			}
-			k2 := shapeKey(fn)
-			if _, known := shapes[k2]; known {
+			if _, known := shapes[shapeKey(fn)]; known {
 				continue // existed under this name before: not a renamed function
 			}
 			sh := shapeOf(fn)
@@ -551,7 +571,8 @@ func (P *Program) renamedFunctions(byRel map[string]*ssa.Function, shapes map[st
 		}
 		if len(cands) == 1 {
 			out[key] = cands[0]
-			P.Rebound = append(P.Rebound, fmt.Sprintf("contract %s bound to %s (function renamed)", c.Name, cands[0].RelString(fnPkg(cands[0]))))
+			taken[cands[0]] = true
+			P.Rebound = append(P.Rebound, fmt.Sprintf("%s is now %s (function renamed): contracts and names follow", rel, cands[0].RelString(fnPkg(cands[0]))))
 		}
 	}
 	return out
@@ -620,4 +641,25 @@ func typeRenames(pkgs []*packages.Package, shapes map[string]fnShape) map[string
 		}
 	}
 	return out
+}
+
+// structFieldRen: per struct ("pkgpath.Name"), fields renamed in place since the snapshot
+// (old name -> new name); consulted wherever a contract selects a field by name.
+var structFieldRen = map[string]map[string]string{}
+
+// fieldIs: does field f of struct type t answer to `name` (its own name, or the name it had
+// when the contracts were last frozen)?
+func fieldIs(t types.Type, f *types.Var, name string) bool {
+	if f.Name() == name {
+		return true
+	}
+	if len(structFieldRen) == 0 {
+		return false
+	}
+	n, ok := types.Unalias(derefType(t)).(*types.Named)
+	if !ok || n.Obj().Pkg() == nil {
+		return false
+	}
+	m := structFieldRen[n.Obj().Pkg().Path()+"."+n.Obj().Name()]
+	return m != nil && m[name] == f.Name()
 }
